@@ -40,6 +40,7 @@ func TestC02Seq(t *testing.T) {
 		excluded := 0
 		cfg := DefaultCfg()
 		cfg.Excluded = &excluded
+		cfg.RegrowAfterCut = true
 		g := NewGen(x, cfg)
 		steps := 0
 		fail := func(t *rapid.T, err error) {
